@@ -8007,24 +8007,37 @@ fn rewrite_segment_records(
 ) -> Result<(), WalStoreError> {
     fs::create_dir_all(root)?;
     fs::create_dir_all(segments_dir(root))?;
-    for path in segment_paths(root)? {
-        fs::remove_file(path)?;
-        #[cfg(feature = "echo_verif")]
-        crate::verif::io_point("rewrite.removed", root);
-    }
+    let superseded = segment_paths(root)?;
     let path = segment_path(root, WalSegmentId::from_raw(1));
-    File::create(&path)?.sync_all()?;
+    // Build the replacement beside the live segments and publish it with an atomic
+    // rename. The committed records stay on disk until the replacement is durable, so a
+    // process stop at any point of the rewrite never loses committed transactions. The
+    // temp name is not a segment name, so a leftover is ignored by `segment_paths`.
+    let temp = segments_dir(root).join(".segment-rewrite.tmp");
+    File::create(&temp)?.sync_all()?;
     #[cfg(feature = "echo_verif")]
     crate::verif::io_point("rewrite.created", root);
     for frame in frames {
-        append_segment_record(&path, DiskWalRecord::Frame(frame), false)?;
+        append_segment_record(&temp, DiskWalRecord::Frame(frame), false)?;
     }
     for commit in commits {
-        append_segment_record(&path, DiskWalRecord::Commit(commit), false)?;
+        append_segment_record(&temp, DiskWalRecord::Commit(commit), false)?;
     }
-    File::options().append(true).open(&path)?.sync_all()?;
+    File::options().append(true).open(&temp)?.sync_all()?;
     #[cfg(feature = "echo_verif")]
     crate::verif::io_point("rewrite.synced", root);
+    fs::rename(&temp, &path)?;
+    #[cfg(feature = "echo_verif")]
+    crate::verif::io_point("rewrite.renamed", root);
+    sync_directory_store(&segments_dir(root))?;
+    for old in superseded {
+        if old != path {
+            fs::remove_file(old)?;
+            #[cfg(feature = "echo_verif")]
+            crate::verif::io_point("rewrite.removed", root);
+        }
+    }
+    sync_directory_store(&segments_dir(root))?;
     sync_directory_store(root)?;
     Ok(())
 }
